@@ -25,10 +25,10 @@ ASSUMPTIONS = ["default trash directories only (no --trash-dir)",
 
 SLOTS = ["/home/u/w/a", "/home/u/w/b", "/home/u/w/sub/a", "/home/u/w/sub/deep/c d", "/data/a",
          "/vol/d/a", "/vol/d/b", "/vol/d/sub/a", "/vol2/x/a", "/home/u/w/a b\nc", "/home/u/w/...",
-         "/vol/d/....", "/home/u/w/a.trashinfo", "/vol/d/.trashinfo"]
+         "/vol/d/....", "/home/u/w/a.trashinfo", "/vol/d/.trashinfo", "/home/u/w/c++/x+y %2B", "/vol/d/a+b"]
 DIRS = ["/", "/home/u/w", "/home/u/w/sub", "/home/u", "/vol", "/vol/d", "/vol2", "/data"]
 PATTERNS = ["a", "b", "*", "a*", "?", "[ab]", "/home/u/w/*", "/vol/*", "/*/a", "c d", "*c", "zzz",
-            "/vol/d/a", "A", "...", ".*", "*.trashinfo"]
+            "/vol/d/a", "A", "...", ".*", "*.trashinfo", "*+*", "a b"]
 
 
 def examples(tier):
